@@ -45,8 +45,18 @@ EXPLANATION = (
     'only under an itemsize ordering that makes it widening, pooled counts '
     'accumulate by addition before one MI computation; (D7) relative entropy '
     'term p log(p/q) with exactly the NaN cells zeroed, entropy -sum p log p '
-    'with the log masked to p > 0; no argument mutation. The '
-    'information-theoretic identities themselves are not decided.')
+    'with the log masked to p > 0; no argument mutation. Added after the '
+    'fourth hunt: (D1.capacity) the number of frames is bounded by what one '
+    'cell of the count table holds, on the FRAME axis; (D6.pooled.capacity) '
+    'the pooled table is wider than the kernel\'s cells; (D6.defaults.width) '
+    'the default state count max+1 is computed in Python integers, not in the '
+    'dtype of the id array; (D6.uptype.ids-preserved) truth table over all '
+    'pairs of the kernel\'s integer element types: the harmonisation hands '
+    'the kernel one element type and no cast wraps an id into the admissible '
+    'range; (D5.out-dtype) element-type provenance of the out= buffer of every '
+    'float-valued ufunc: floating on every path, never the dtype of an '
+    'argument the contract leaves open. The information-theoretic identities '
+    'themselves and rounding-level deviations from them are not decided.')
 
 
 # ---------------------------------------------------------------------------
@@ -421,6 +431,7 @@ def d1_kernel(ck):
                   'the incremented cell must be jc[a_row, b_row, a[t, a_row], b[t, b_row]] += 1')
         if v[0] != 'match':
             continue
+        _capacity(ck, mod, fn, fi, s, A, B, JC)
         # ---- every frame / feature pair is visited exactly once
         b = v[1]
         for meta, arr, k, what in (('_T', A, 0, 'frame'), ('_FA', A, 1, 'first-feature'), ('_FB', B, 1, 'second-feature')):
@@ -874,6 +885,10 @@ def d4_grid(ck):
     if v[0] != 'match':
         return
     G = v[1]['_G']
+    # a conversion of the integer grid to floating point before the log keeps every value
+    while isinstance(G, ast.Call) and isinstance(G.func, ast.Attribute) and G.func.attr == 'astype' and len(G.args) == 1 and \
+            u(G.args[0]) in ('float', 'np.float64', 'np.double', "'float'", "'float64'", "'f8'") and all(k.arg == 'copy' for k in G.keywords):
+        G = G.func.value
     if not isinstance(G, ast.Call):
         ck.missing(rule, 'per-pair state-count grid is not built by a call: %s' % u(G)[:100])
         return
@@ -1001,7 +1016,7 @@ def _itemsize_owner(fi, e, at):
     return None
 
 
-def d6_joint_counts(ck):
+def d6_joint_counts(ck, table_verdict=None):
     rule = 'C18.D6.joint-counts'
     F = 'joint_counts'
     mod = ck.repo.mod(MI)
@@ -1063,7 +1078,7 @@ def d6_joint_counts(ck):
                     ck.missing(rule + '.defaults', 'definition of %s at %s' % (cn.id, mod.loc(site)))
                     continue
                 defaults_seen[cnts[k]] += 1
-                vv = classify(fi.expand(val, stop=(X, Y)), ['_A.max() + 1', '1 + _A.max()', 'int(_A.max()) + 1', 'int(_A.max() + 1)'],
+                vv = classify(fi.expand(val, stop=(X, Y)), ['_A.max() + 1', '1 + _A.max()', 'int(_A.max()) + 1', '1 + int(_A.max())', 'int(_A.max() + 1)', '_A.max().item() + 1'],
                               scope={X, Y})
                 if vv[0] == 'match':
                     src = _origin_of(fi, vv[1]['_A'], site)
@@ -1117,6 +1132,11 @@ def d6_joint_counts(ck):
             ck.ok(rule + '.uptype', mod, s, u(s), 'cast to the common (promoted) type of both arrays')
             continue
         if b is None or _origin_of(fi, b['_O'], s) is None:
+            if table_verdict == 'ok':
+                # e.g. a common type that is rebound on one path (promote_types, then a fallback for uint64 + signed)
+                cast_sides.add(src)
+                ck.ok(rule + '.uptype', mod, s, u(s), 'target type decided by the element-type truth table (%s.ids-preserved)' % (rule + '.uptype'))
+                continue
             ck.missing(rule + '.uptype', 'target dtype of the cast not recognised: %s' % u(s))
             unrecognised = True
             continue
@@ -1198,7 +1218,16 @@ def d6_joint_counts(ck):
     ck.check(not fim.cfg.reachable(mst, mst) and not fim.cfg.reachable(mst, jst), rule_p, mod, mic[0], G, u(mic[0]),
              'MI computed once, after all trajectories were counted',
              'mutual_information must be computed once from the pooled counts, after the counting loop')
-    is_count = lambda e, at: isinstance(e, ast.Name) and fim.resolve(e) is jc_call or e is jc_call
+    def _unwidened(e):
+        """(table expression, element type it is converted to or None)"""
+        if isinstance(e, ast.Call) and isinstance(e.func, ast.Attribute) and e.func.attr == 'astype' and len(e.args) == 1 and \
+                all(k.arg == 'copy' for k in e.keywords):
+            return e.func.value, e.args[0]
+        if isinstance(e, ast.Call) and call_name(e) in ('np.asarray', 'np.array') and len(e.args) == 1 and kwarg(e, 'dtype') is not None and \
+                all(k.arg in ('dtype', 'copy') for k in e.keywords):
+            return e.args[0], kwarg(e, 'dtype')
+        return e, None
+    is_count = lambda e, at: (lambda t: isinstance(t, ast.Name) and fim.resolve(t) is jc_call or t is jc_call)(_unwidened(e)[0])
     adds, plain, other = [], [], []
     for site in fim.rd.defs_at(mst, POOL):
         if site in ('PARAM', 'UNBOUND'):
@@ -1221,6 +1250,7 @@ def d6_joint_counts(ck):
             other.append(site)
     if adds and not other:
         ck.ok(rule_p, mod, adds[0], u(adds[0]), 'counts pooled by addition before the MI is computed')
+        _pooled_capacity(ck, mod, fm, fim, G, POOL, plain, adds, _unwidened)
     elif other:
         ck.missing(rule_p, 'a definition of the pooled counts `%s` is not recognised (%s)' % (
             POOL, '; '.join(u(s)[:60] if not isinstance(s, str) else s for s in other)))
@@ -1329,6 +1359,846 @@ def d7_entropy(ck):
               'entropy must be -sum(p * log p) with the log evaluated only where p > 0 (0 log 0 = 0)')
 
 
+# ---------------------------------------------------------------------------
+# Rules added for the findings of the fourth hunt (notes/findings/info)
+
+def _fold_int(node):
+    """Value of an integer expression built from literals (2**32, 1 << 32,
+    2**32 - 1, ...); None for anything else.  Constant folding only."""
+    if isinstance(node, ast.Constant):
+        return node.value if type(node.value) is int else None
+    if isinstance(node, ast.UnaryOp) and isinstance(node.op, (ast.USub, ast.UAdd)):
+        v = _fold_int(node.operand)
+        return None if v is None else (-v if isinstance(node.op, ast.USub) else v)
+    if isinstance(node, ast.BinOp):
+        a, b = _fold_int(node.left), _fold_int(node.right)
+        if a is None or b is None:
+            return None
+        if isinstance(node.op, ast.Add):
+            return a + b
+        if isinstance(node.op, ast.Sub):
+            return a - b
+        if isinstance(node.op, ast.Mult):
+            return a * b
+        if isinstance(node.op, ast.Pow) and 0 <= b <= 128:
+            return a ** b
+        if isinstance(node.op, ast.LShift) and 0 <= b <= 128:
+            return a << b
+    return None
+
+
+_C_ELEM = {'np.uint8_t': (8, False), 'np.uint16_t': (16, False), 'np.uint32_t': (32, False), 'np.uint64_t': (64, False),
+           'np.int8_t': (8, True), 'np.int16_t': (16, True), 'np.int32_t': (32, True), 'np.int64_t': (64, True)}
+_NP_ELEM = {k.replace('_t', ''): v for k, v in _C_ELEM.items()}
+_NP_ELEM.update({k.replace('np.', 'numpy.'): v for k, v in list(_NP_ELEM.items())})
+_SSIZE_MAX = 2 ** 63 - 1            # an extent (Py_ssize_t) never exceeds this
+
+
+def _cell_capacity(fn, fi, JC, at):
+    """Largest count one cell of the returned table can hold: from the
+    declared buffer element type and the dtype= of its allocation (they must
+    agree).  None when neither is readable."""
+    seen = set()
+    t = getattr(fn, 'cy_locals', {}).get(JC)
+    if t is not None and getattr(t, 'elem', None) in _C_ELEM:
+        seen.add(_C_ELEM[t.elem])
+    elif t is not None and getattr(t, 'elem', None) is not None:
+        return None
+    for site in fi.rd.defs_at(at, JC):
+        val = fi.def_value(site, JC) if isinstance(site, (ast.Assign, ast.AnnAssign)) else None
+        if val is None:
+            continue                  # the bare cdef declaration
+        val = fi.expand(val)
+        if not (isinstance(val, ast.Call) and call_name(val) in _ALLOCS):
+            return None
+        d = kwarg(val, 'dtype')
+        if d is None:
+            return None               # float64 table: not a count table the rule understands
+        if u(d) not in _NP_ELEM:
+            return None
+        seen.add(_NP_ELEM[u(d)])
+    if len(seen) != 1:
+        return None
+    bits, signed = next(iter(seen))
+    return 2 ** (bits - 1) - 1 if signed else 2 ** bits - 1
+
+
+def _capacity(ck, mod, fn, fi, inc, A, B, JC):
+    """Every trip of the frame loop adds one to a cell, so a cell can reach
+    the number of frames (all frames in one state pair).  The table is exact
+    only if that number fits the cell type: either the type holds every
+    possible extent, or a dominating guard bounds the FRAME extent (axis 0 of
+    the feature arrays - the axis the matched cell `a[t, x]` is indexed by
+    with the frame index) by a constant within the capacity."""
+    rule = 'C18.D1.capacity'
+    F = mod.qualname(fn)
+    cap = _cell_capacity(fn, fi, JC, inc)
+    if cap is None:
+        ck.missing(rule, 'element type of the count table `%s`' % JC)
+        return
+    if cap >= _SSIZE_MAX:
+        ck.ok(rule, mod, inc, '%s cells hold %d' % (JC, cap), 'the cell type holds every possible number of frames')
+        return
+    guards = []
+    for a in _atoms(fi, inc):
+        less = a.as_less() if isinstance(a, Cmp) else None
+        if less is None:
+            continue
+        small, strict, big = less
+        k = _fold_int(big)
+        if k is None:
+            continue
+        b = match('_X.shape[_K]', small)
+        if b is None and match('len(_X)', small) is not None:
+            b = dict(match('len(_X)', small), _K=ast.Constant(value=0))
+        if b is None or not isinstance(b['_X'], ast.Name) or type(const_value(b['_K'])) is not int:
+            continue
+        src = _origin(fi, b['_X'].id, inc)
+        if src not in (A, B):
+            continue
+        guards.append((const_value(b['_K']), src, k - 1 if strict else k, a))
+    frame = [g for g in guards if g[0] in (0, -2)]
+    other = [g for g in guards if g[0] not in (0, -2)]
+    good = [g for g in frame if g[2] <= cap]
+    if good:
+        ck.ok(rule, mod, inc, repr(good[0][3]), 'the number of frames is bounded by what one cell of the count table can hold (%d)' % cap)
+    elif frame:
+        ck.bad(rule, mod, inc, F, 'frame-count limit of the count table',
+               'the guard %r admits %d frames but one cell of `%s` holds at most %d: the count of a state pair wraps' % (
+                   frame[0][3], frame[0][2], JC, cap))
+    elif other:
+        g = other[0]
+        ck.bad(rule, mod, inc, F, 'frame-count limit of the count table is tested on another axis',
+               'one cell of `%s` holds at most %d and every frame adds one to a cell, so the number of FRAMES (%s.shape[0], the '
+               'axis indexed by the frame index) must be bounded; the guard %r bounds axis %d (the features) instead: a '
+               'trajectory of more than %d frames is accepted and its counts wrap modulo %d' % (
+                   JC, cap, A, g[3], g[0], cap, cap + 1))
+    else:
+        ck.bad(rule, mod, inc, F, 'no frame-count limit for the count table',
+               'one cell of `%s` holds at most %d and every frame adds one to a cell, but no dominating guard bounds '
+               '%s.shape[0]: the counts of a longer trajectory wrap modulo %d' % (JC, cap, A, cap + 1))
+
+
+_WIDE_TYPES = {'np.uint64', 'np.int64', 'np.intp', 'np.uintp', 'np.int_', 'np.uint', 'int', 'float', 'np.float64', 'np.double',
+               "'uint64'", "'int64'", "'int'", "'float'", "'float64'", "'u8'", "'i8'", "'f8'"}
+
+
+def _pooled_capacity(ck, mod, fm, fim, G, POOL, plain, adds, unwidened):
+    """One trajectory adds at most its number of frames to a cell, which the
+    kernel bounds by the capacity of its cell type; the POOLED table adds up
+    an unbounded number of trajectories, so its cells must be wider than the
+    kernel's: the running total has to start from a 64-bit (or float64)
+    conversion of the first table - `jc = jc_i; jc += jc_i` keeps the
+    kernel's 32-bit cells and wraps silently."""
+    rule = 'C18.D6.joint-counts.pooled.capacity'
+    kmod = ck.repo.mod(LI)
+    kfn = kmod.func('matrix_bincount2d')
+    kfi = _fi(kmod, kfn)
+    rets = [r for r in returns_of(kfn) if isinstance(r.value, ast.Name)]
+    cap = _cell_capacity(kfn, kfi, rets[0].value.id, rets[0]) if len(rets) == 1 else None
+    if cap is None:
+        ck.missing(rule, 'cell type of the table matrix_bincount2d returns')
+        return
+    if cap >= _SSIZE_MAX:
+        ck.ok(rule, mod, adds[0], u(adds[0]), 'the kernel\'s cells are 64 bits wide')
+        return
+    if not plain:
+        ck.missing(rule, 'start of the running total `%s`' % POOL)
+        return
+    narrow = []
+    for site in plain:
+        _t, d = unwidened(fim.def_value(site, POOL))
+        if d is None or u(d) not in _WIDE_TYPES:
+            narrow.append(site)
+    inplace = all(isinstance(a, ast.AugAssign) for a in adds)
+    if not narrow and inplace:
+        ck.ok(rule, mod, plain[0], u(plain[0]), 'the running total is a 64-bit copy of the first table; in-place addition keeps that type')
+    elif not narrow:
+        ck.missing(rule, 'the running total is widened but rebuilt by `%s`: result type of the sum not decided' % u(adds[0])[:80])
+    else:
+        ck.bad(rule, mod, narrow[0], G, 'running total of the pooled joint counts keeps the cell type of one trajectory\'s table',
+               '`%s` starts the pooled table as the kernel\'s own array (cells hold at most %d) and `%s` adds every further '
+               'trajectory into it: the kernel bounds ONE trajectory by that capacity, the sum over trajectories is unbounded, '
+               'so a state pair seen in more than %d pooled frames wraps modulo %d without any error and the MI is computed '
+               'from wrong counts. Start from a 64-bit copy (`.astype(np.uint64)`)' % (u(narrow[0]), cap, u(adds[0]), cap, cap + 1))
+
+
+# ---- default state counts are computed in Python integers -------------------
+
+_ID_ARRAYS = {'joint_counts': 2, 'weighted_mi': 1}      # leading parameters that hold state ids of ANY integer dtype
+
+
+def d6_default_width(ck):
+    """`<ids>.max() + 1` is evaluated in the dtype of the id array (a NumPy
+    scalar plus a Python int keeps the scalar's type): for an array that uses
+    the top value of its dtype (int8 holding 127, uint8 holding 255) the sum
+    wraps and the default state count is negative / zero.  The maximum must
+    be converted to a Python int (or a 64-bit type) BEFORE one is added."""
+    rule = 'C18.D6.defaults.width'
+    mod = ck.repo.mod(MI)
+    for F, k in _ID_ARRAYS.items():
+        fn = mod.func(F)
+        ck.analysed(mod, fn)
+        fi = _fi(mod, fn)
+        ids = params(fn)[:k]
+        n = 0
+        for node in walk_local(fn):
+            if not (isinstance(node, ast.BinOp) and isinstance(node.op, ast.Add)):
+                continue
+            st = fi.stmt(node)
+            if st is None:
+                continue
+            e = canon(fi.expand(node, stop=tuple(ids)))
+            if not isinstance(e, ast.BinOp):
+                continue
+            for x, one in ((e.left, e.right), (e.right, e.left)):
+                if type(const_value(one)) is not int:
+                    continue
+                wide = None
+                for f in ('int(_A.max())', '_A.max().item()', 'operator.index(_A.max())', 'np.int64(_A.max())',
+                          '_A.astype(np.int64).max()', '_A.astype(int).max()', '_A.max().astype(np.int64)', '_A.max().astype(int)'):
+                    wide = wide or match(f, x)
+                narrow = match('_A.max()', x)
+                b = wide or narrow
+                if b is None:
+                    continue
+                src = _origin_of(fi, b['_A'], st)
+                if src not in ids:
+                    continue
+                n += 1
+                if wide is not None:
+                    ck.ok(rule, mod, node, _cx(e), 'the largest id is converted to a wide integer before one is added')
+                else:
+                    ck.bad(rule, mod, node, F, '%s.max() + %d' % (src, const_value(one)),
+                           'the default state count `%s` is computed in the dtype of `%s` (NumPy scalar + Python int keeps the '
+                           'array\'s type): when the ids use the top value of a narrow type (int8 holding 127, uint8 holding 255) '
+                           'the sum wraps to a negative number / zero and valid data are rejected; convert first: int(%s.max()) + %d' % (
+                               _cx(e), src, src, const_value(one)))
+                break
+        if n == 0:
+            ck.missing(rule, 'default state count `<ids>.max() + 1` in %s' % F)
+
+
+# ---- dtype harmonisation keeps every id (or has it rejected) ------------------
+
+_INT_DT = {'int8': (8, True), 'int16': (16, True), 'int32': (32, True), 'int64': (64, True),
+           'uint8': (8, False), 'uint16': (16, False), 'uint32': (32, False), 'uint64': (64, False)}
+_DT_ALIASES = {'int': 'int64', 'intp': 'int64', 'int_': 'int64', 'long': 'int64', 'uint': 'uint64', 'uintp': 'uint64',
+               'float': 'float64', 'float_': 'float64', 'double': 'float64', 'float64': 'float64', 'float32': 'float32',
+               'i1': 'int8', 'i2': 'int16', 'i4': 'int32', 'i8': 'int64', 'u1': 'uint8', 'u2': 'uint16', 'u4': 'uint32', 'u8': 'uint64',
+               'f8': 'float64', 'f4': 'float32', 'd': 'float64'}
+_C_INT_BITS = {'int': 31, 'long': 63, 'short': 15, 'Py_ssize_t': 63, 'ssize_t': 63, 'long long': 63}
+
+
+def _dt_range(name):
+    bits, signed = _INT_DT[name]
+    return (-(2 ** (bits - 1)), 2 ** (bits - 1) - 1) if signed else (0, 2 ** bits - 1)
+
+
+def _dt_promote(a, b):
+    """np.promote_types on the integer dtypes (NumPy's documented table)."""
+    if a == b:
+        return a
+    if a not in _INT_DT or b not in _INT_DT:
+        return 'float64'
+    (ba, sa), (bb, sb) = _INT_DT[a], _INT_DT[b]
+    if sa == sb:
+        return a if ba >= bb else b
+    sbits, ubits = (ba, bb) if sa else (bb, ba)
+    if sbits > ubits:
+        return 'int%d' % sbits
+    return 'int%d' % (2 * ubits) if 2 * ubits <= 64 else 'float64'
+
+
+def _dt_contains(dst, src):
+    if dst not in _INT_DT or src not in _INT_DT:
+        return dst == src or (dst == 'float64' and src in _INT_DT and _INT_DT[src][0] <= 32)
+    (lo, hi), (slo, shi) = _dt_range(dst), _dt_range(src)
+    return lo <= slo and shi <= hi
+
+
+class _Unsupported(Exception):
+    pass
+
+
+class _Ids:
+    """An array that still holds the state ids of parameter `origin`."""
+
+    def __init__(self, origin, dtype, lost=()):
+        self.origin, self.dtype, self.lost = origin, dtype, tuple(lost)
+
+
+class _Dt:
+    def __init__(self, name):
+        self.name = name
+
+
+_UNKV = type('Unknown', (), {'__repr__': lambda self: '<unknown>'})()
+
+
+class _DtypeRun:
+    """Abstract execution of a loop-free function body for ONE assignment of
+    element types to the id arrays: values are id arrays with their dtype,
+    dtype objects, Python constants, or unknown.  A branch on an unknown
+    condition forks.  Nothing of the analysed code is executed: the transfer
+    functions below are the rule's own table of NumPy's dtype arithmetic."""
+
+    def __init__(self, kernel, n_bits):
+        self.kernel, self.n_bits = kernel, n_bits
+        self.done = []
+        self.paths = 0
+
+    # -- dtype helpers
+    def as_dtype(self, v):
+        if isinstance(v, _Dt):
+            return v.name
+        if isinstance(v, _Ids):
+            return v.dtype
+        if isinstance(v, str):
+            v = v.lstrip('<>=|')
+            if v in _INT_DT:
+                return v
+            return _DT_ALIASES.get(v)
+        return None
+
+    def cast_ok(self, src, dst):
+        if _dt_contains(dst, src):
+            return True
+        if src in _INT_DT and dst in _INT_DT and self.n_bits is not None:
+            # a wrapped id is negative or >= 2**(bits-1): the kernel's two-sided guard rejects it, rightly so
+            # when every admissible state count (a C integer of n_bits value bits) is below that
+            return _INT_DT[dst][0] >= _INT_DT[src][0] and _INT_DT[dst][0] - 1 >= self.n_bits
+        return False
+
+    def cast(self, arr, dst, node):
+        if dst is None or arr.dtype is None:
+            raise _Unsupported('target type of `%s` not evaluated' % u(node)[:80])
+        lost = () if self.cast_ok(arr.dtype, dst) else ((node, arr.dtype, dst),)
+        return _Ids(arr.origin, dst, arr.lost + lost)
+
+    # -- expressions
+    def ev(self, e, env):
+        if isinstance(e, ast.Constant):
+            return e.value
+        if isinstance(e, ast.Name):
+            if e.id in env:
+                return env[e.id]
+            return {'int': _Dt('int64'), 'float': _Dt('float64')}.get(e.id, _UNKV)
+        if isinstance(e, (ast.Tuple, ast.List)):
+            return tuple(self.ev(x, env) for x in e.elts)
+        if isinstance(e, ast.Attribute):
+            d = u(e)
+            if d.startswith(('np.', 'numpy.')) and d.split('.', 1)[1] in set(_INT_DT) | set(_DT_ALIASES):
+                return _Dt(self.as_dtype(d.split('.', 1)[1]))
+            v = self.ev(e.value, env)
+            if isinstance(v, _Ids):
+                if e.attr == 'dtype':
+                    return _Dt(v.dtype) if v.dtype else _UNKV
+                if e.attr == 'itemsize' and v.dtype in _INT_DT:
+                    return _INT_DT[v.dtype][0] // 8
+                if e.attr == 'T':
+                    return v
+                return _UNKV
+            if isinstance(v, _Dt):
+                if e.attr == 'itemsize':
+                    return _INT_DT[v.name][0] // 8 if v.name in _INT_DT else {'float64': 8, 'float32': 4}.get(v.name, _UNKV)
+                if e.attr == 'kind':
+                    return ('i' if _INT_DT[v.name][1] else 'u') if v.name in _INT_DT else 'f'
+                if e.attr in ('name', 'str'):
+                    return v.name if e.attr == 'name' else _UNKV
+                if e.attr in ('type', 'newbyteorder'):
+                    return v if e.attr == 'type' else _UNKV
+            return _UNKV
+        if isinstance(e, ast.Subscript):
+            v = self.ev(e.value, env)
+            if isinstance(v, _Ids) and all(_is_const(i, None) or _is_const(i, Ellipsis) or _full_slice(i) for i in _index_items(e.slice)):
+                return v
+            return _UNKV
+        if isinstance(e, ast.Call):
+            return self.call(e, env)
+        if isinstance(e, ast.Compare):
+            left = self.ev(e.left, env)
+            res = True
+            for op, right in zip(e.ops, e.comparators):
+                r = self.ev(right, env)
+                c = self.compare(left, op, r)
+                if c is _UNKV:
+                    return _UNKV
+                if not c:
+                    res = False
+                    break
+                left = r
+            return res
+        if isinstance(e, ast.BoolOp):
+            is_and = isinstance(e.op, ast.And)
+            unknown = False
+            v = None
+            for x in e.values:
+                v = self.ev(x, env)
+                t = self.truth(v)
+                if t is None:
+                    unknown = True
+                elif t != is_and:
+                    return v if not unknown else (False if is_and else True) if is_and != t else _UNKV
+            return _UNKV if unknown else v
+        if isinstance(e, ast.UnaryOp) and isinstance(e.op, ast.Not):
+            t = self.truth(self.ev(e.operand, env))
+            return _UNKV if t is None else (not t)
+        if isinstance(e, ast.IfExp):
+            t = self.truth(self.ev(e.test, env))
+            if t is None:
+                a, b = self.ev(e.body, env), self.ev(e.orelse, env)
+                return a if a is b else _UNKV
+            return self.ev(e.body if t else e.orelse, env)
+        if isinstance(e, ast.BinOp):
+            a, b = self.ev(e.left, env), self.ev(e.right, env)
+            if type(a) is int and type(b) is int:
+                k = _fold_int(ast.BinOp(left=ast.Constant(value=a), op=e.op, right=ast.Constant(value=b)))
+                return _UNKV if k is None else k
+            return _UNKV
+        for ch in ast.iter_child_nodes(e):          # a kernel call hidden in an expression the table does not know
+            if isinstance(ch, ast.expr):
+                self.ev(ch, env)
+        return _UNKV
+
+    def compare(self, a, op, b):
+        if isinstance(op, (ast.Is, ast.IsNot)):
+            if a is _UNKV or b is _UNKV:
+                return _UNKV
+            same = (a is None and b is None) if (a is None or b is None) else _UNKV
+            if same is _UNKV:
+                return _UNKV
+            return same if isinstance(op, ast.Is) else not same
+        if a is _UNKV or b is _UNKV:
+            return _UNKV
+        if isinstance(op, (ast.Eq, ast.NotEq)):
+            if isinstance(a, (_Dt, str)) and isinstance(b, (_Dt, str)) and (isinstance(a, _Dt) or isinstance(b, _Dt)):
+                da, db = self.as_dtype(a), self.as_dtype(b)
+                if da is None or db is None:
+                    return _UNKV
+                eq = da == db
+            elif isinstance(a, (int, float, str)) and isinstance(b, (int, float, str)) and isinstance(a, str) == isinstance(b, str):
+                eq = a == b
+            elif a is None or b is None:
+                eq = a is b
+            else:
+                return _UNKV
+            return eq if isinstance(op, ast.Eq) else not eq
+        if isinstance(op, (ast.Lt, ast.LtE, ast.Gt, ast.GtE)):
+            if type(a) in (int, float) and type(b) in (int, float):
+                return {ast.Lt: a < b, ast.LtE: a <= b, ast.Gt: a > b, ast.GtE: a >= b}[type(op)]
+            return _UNKV
+        if isinstance(op, (ast.In, ast.NotIn)):
+            if isinstance(a, str) and (isinstance(b, str) or (isinstance(b, tuple) and all(isinstance(x, str) for x in b))):
+                r = a in b
+                return r if isinstance(op, ast.In) else not r
+            return _UNKV
+        return _UNKV
+
+    def truth(self, v):
+        if v is _UNKV or isinstance(v, (_Ids, tuple)):
+            return None
+        if isinstance(v, _Dt):
+            return True
+        return bool(v)
+
+    def call(self, e, env):
+        cn = call_name(e) or ''
+        args = [self.ev(a.value if isinstance(a, ast.Starred) else a, env) for a in e.args]
+        kws = {k.arg: self.ev(k.value, env) for k in e.keywords}
+        if cn.split('.')[-1] == self.kernel:
+            env['$events'].append((e, args))
+            return _UNKV
+        if isinstance(e.func, ast.Attribute):
+            recv = self.ev(e.func.value, env)
+            if isinstance(recv, _Ids):
+                if e.func.attr == 'astype' and (args or 'dtype' in kws):
+                    return self.cast(recv, self.as_dtype(args[0] if args else kws['dtype']), e)
+                if e.func.attr == 'copy':
+                    return recv
+                if e.func.attr == 'view' and (args or kws):
+                    raise _Unsupported('reinterpreting view `%s`' % u(e)[:80])
+                return _UNKV
+            if isinstance(recv, _Dt):
+                return _UNKV
+        if cn in ('np.promote_types', 'np.result_type', 'numpy.promote_types', 'numpy.result_type') and len(args) == 2 and not kws:
+            d = [self.as_dtype(a) for a in args]
+            if None in d:
+                raise _Unsupported('operands of `%s` not evaluated' % u(e)[:80])
+            return _Dt(_dt_promote(*d))
+        if cn in ('np.dtype', 'numpy.dtype') and len(args) == 1 and not kws:
+            d = self.as_dtype(args[0])
+            return _Dt(d) if d else _UNKV
+        if cn in ('np.can_cast', 'numpy.can_cast') and len(args) == 2 and kws.get('casting', 'safe') == 'safe':
+            d = [self.as_dtype(a) for a in args]
+            return _UNKV if None in d else _dt_contains(d[1], d[0])
+        if cn in ('np.issubdtype', 'numpy.issubdtype') and len(args) == 2 and not kws:
+            d = self.as_dtype(args[0])
+            cls = u(e.args[1]).split('.')[-1]
+            if d is not None and cls in ('integer', 'signedinteger', 'unsignedinteger', 'floating', 'number', 'inexact'):
+                isint = d in _INT_DT
+                return {'integer': isint, 'signedinteger': isint and _INT_DT[d][1], 'unsignedinteger': isint and not _INT_DT[d][1],
+                        'floating': not isint, 'inexact': not isint, 'number': True}[cls]
+            return _UNKV
+        if cn in _PASS_FUNCS and args and isinstance(args[0], _Ids):
+            if 'dtype' in kws or len(args) > 1:
+                return self.cast(args[0], self.as_dtype(kws.get('dtype', args[1] if len(args) > 1 else None)), e)
+            return args[0]
+        if cn in ('min', 'max') and args and all(type(a) is int for a in args):
+            return min(args) if cn == 'min' else max(args)
+        return _UNKV
+
+    # -- statements
+    def fork(self, env):
+        new = dict(env)
+        new['$events'] = list(env['$events'])
+        return new
+
+    def bind(self, t, v, env):
+        if isinstance(t, ast.Name):
+            env[t.id] = v
+        elif isinstance(t, (ast.Tuple, ast.List)):
+            vs = v if isinstance(v, tuple) and len(v) == len(t.elts) else [_UNKV] * len(t.elts)
+            for te, ve in zip(t.elts, vs):
+                self.bind(te, ve, env)
+
+    def run(self, stmts, env):
+        envs = [env]
+        for s in stmts:
+            nxt = []
+            for en in envs:
+                nxt += self.step(s, en)
+            envs = nxt
+            self.paths = max(self.paths, len(envs))
+            if len(envs) > 1024:
+                raise _Unsupported('more than 1024 paths')
+            if not envs:
+                break
+        return envs
+
+    def step(self, s, env):
+        if isinstance(s, ast.Expr):
+            self.ev(s.value, env)
+            return [env]
+        if isinstance(s, ast.Assign):
+            v = self.ev(s.value, env)
+            for t in s.targets:
+                self.bind(t, v, env)
+            return [env]
+        if isinstance(s, ast.AnnAssign):
+            if s.value is not None:
+                self.bind(s.target, self.ev(s.value, env), env)
+            return [env]
+        if isinstance(s, ast.AugAssign):
+            self.ev(s.value, env)
+            self.bind(s.target, _UNKV, env)
+            return [env]
+        if isinstance(s, ast.If):
+            t = self.truth(self.ev(s.test, env))
+            if t is None:
+                return self.run(s.body, self.fork(env)) + self.run(s.orelse, self.fork(env))
+            return self.run(s.body if t else s.orelse, env)
+        if isinstance(s, ast.Return):
+            if s.value is not None:
+                self.ev(s.value, env)
+            self.done.append(env)
+            return []
+        if isinstance(s, ast.Raise):
+            return []
+        if isinstance(s, (ast.Assert, ast.Pass, ast.Import, ast.ImportFrom, ast.Global, ast.Nonlocal)):
+            return [env]
+        raise _Unsupported('%s statement at line %s' % (type(s).__name__, getattr(s, 'lineno', '?')))
+
+
+def d6_ids_preserved(ck):
+    """Truth table over the element types of the two id arrays (the fused
+    integer types of the kernel, every ordered pair, and Y=None): the body of
+    joint_counts is executed abstractly and at every kernel call (i) both
+    arrays must have ONE element type for which the kernel has a
+    specialisation and (ii) every cast on the way must have kept every id, or
+    turned an id the cast wraps into one the kernel's range guard rejects.  An
+    itemsize ordering does not establish that when the signedness differs:
+    int8 -> uint8 turns the invalid id -1 into the valid 255, uint8 -> int8
+    turns the valid 200 into -56."""
+    rule = 'C18.D6.joint-counts.uptype.ids-preserved'
+    F = 'joint_counts'
+    mod = ck.repo.mod(MI)
+    fn = mod.func(F)
+    ck.analysed(mod, fn)
+    if len(params(fn)) < 4:
+        ck.missing(rule, 'signature (X, Y, n_x, n_y)')
+        return 'missing'
+    X, Y = params(fn)[:2]
+    kmod = ck.repo.mod(LI)
+    kfn = kmod.func('matrix_bincount2d')
+    fused = getattr(kmod.tree, 'cy_fused', {})
+    kp = params(kfn)
+    types = getattr(kfn, 'cy_argtypes', {})
+    elems = []
+    if len(kp) >= 4 and kp[0] in types and kp[1] in types and types[kp[0]].base == types[kp[1]].base:
+        elems = [t.elem.replace('np.', '').replace('_t', '') for t in fused.get(types[kp[0]].base, []) if getattr(t, 'elem', None)]
+    if not elems or any(x not in _INT_DT for x in elems):
+        ck.missing(rule, 'fused integer element types of matrix_bincount2d(a, b, ...)')
+        return 'missing'
+    nb = [_C_INT_BITS.get(types[p].base) if p in types else None for p in kp[2:4]]
+    n_bits = None if None in nb else max(nb)
+    problems, runs, paths = {}, 0, 0
+    try:
+        for dx in elems:
+            for dy in elems + [None]:
+                r = _DtypeRun('matrix_bincount2d', n_bits)
+                env = {p: _UNKV for p in params(fn)}
+                env.update({X: _Ids(X, dx), Y: _Ids(Y, dy) if dy else None, '$events': []})
+                r.done += r.run(fn.body, env)
+                runs += 1
+                paths += len(r.done)
+                for en in r.done:
+                    for call, args in en['$events']:
+                        if len(args) < 2 or not all(isinstance(a, _Ids) and a.dtype for a in args[:2]):
+                            raise _Unsupported('array arguments of `%s` not traced back to %s / %s' % (u(call)[:80], X, Y))
+                        a, b = args[:2]
+                        wit = '%s %s, %s %s' % (X, dx, Y, dy)
+                        if a.dtype != b.dtype:
+                            problems.setdefault(('mixed', u(call)), []).append('%s: the kernel receives %s and %s' % (wit, a.dtype, b.dtype))
+                        elif a.dtype not in elems:
+                            problems.setdefault(('nospec', u(call)), []).append('%s: the kernel receives %s arrays' % (wit, a.dtype))
+                        for arr in (a, b):
+                            for node, src, dst in arr.lost:
+                                problems.setdefault(('wrap', u(node)), []).append('%s: %s -> %s' % (wit, src, dst))
+    except _Unsupported as e:
+        ck.missing(rule, 'joint_counts is not a loop-free harmonisation the dtype table can follow (%s)' % e)
+        return 'missing'
+    if not problems:
+        ck.ok(rule, mod, fn, '%d element-type pairs, %d paths' % (runs, paths),
+              'for every pair of integer element types the kernel receives two arrays of one type and no cast wraps an id '
+              'into the admissible range')
+        return 'ok'
+    parts = []
+    for (kind, text), wits in sorted(problems.items()):
+        uniq = sorted(set(wits))
+        what = {'wrap': 'the cast `%s` does not keep the ids', 'mixed': 'the call `%s` gets two element types',
+                'nospec': 'the call `%s` gets a type without kernel specialisation'}[kind] % text[:80]
+        parts.append('%s (%d type pairs, e.g. %s)' % (what, len(uniq), '; '.join(uniq[:2])))
+    ck.bad(rule, mod, fn, F, 'dtype harmonisation of %s and %s before the kernel call' % (X, Y),
+           'enumerating the kernel\'s integer element types for %s and %s: %s. A signed id cast to an unsigned type of less '
+           'than 32 bits (or an unsigned id to a signed type that does not contain it) lands in another valid state: the '
+           'negative id -1 is counted as 255, the valid id 200 is rejected as -56. An itemsize comparison does not decide '
+           'value preservation when the signedness differs' % (X, Y, ' | '.join(parts)))
+    return 'bad'
+
+
+# ---- out= buffers of float-valued ufuncs have a floating dtype ---------------
+
+_FLOAT_UFUNCS = {'np.divide', 'np.true_divide', 'np.log', 'np.log2', 'np.log10', 'np.log1p', 'np.exp', 'np.expm1', 'np.sqrt'}
+# what the contract (docstrings + the quantifier of C18) says about the element type of each parameter:
+# 'real' = any real dtype (bool, integer or float: "all weight vectors"), 'int' = any integer dtype, 'float' = floating
+_PARAM_DTYPES = {
+    'weighted_mi': {0: 'int', 1: 'real', 2: 'int'},
+    'mutual_information': {0: 'int'},
+    'channel_capacity_normalization': {0: 'float', 1: 'int', 2: 'int'},
+    'shannon_entropy': {0: 'real'},
+    'kl_divergence': {0: 'real', 1: 'real'},
+}
+_LIKE = {'np.zeros_like', 'np.ones_like', 'np.empty_like', 'np.full_like'}
+_FRESH = {'np.zeros', 'np.ones', 'np.empty'}
+_KEEP_FUNCS = {'np.array', 'np.asarray', 'np.asanyarray', 'np.ascontiguousarray', 'np.copy', 'np.atleast_1d', 'np.atleast_2d',
+               'np.vstack', 'np.hstack', 'np.dstack', 'np.stack', 'np.concatenate', 'np.column_stack', 'np.squeeze', 'np.transpose',
+               'np.ravel', 'np.reshape', 'np.abs', 'np.absolute', 'np.negative', 'np.cumsum', 'np.diag', 'np.triu', 'np.tril',
+               'np.clip', 'np.sort', 'np.flip', 'np.roll', 'np.tile', 'np.repeat', 'np.broadcast_to', 'np.expand_dims'}
+_PROMOTE_FUNCS = {'np.matmul', 'np.dot', 'np.multiply', 'np.add', 'np.subtract', 'np.outer', 'np.kron', 'np.fmin', 'np.fmax',
+                  'np.minimum', 'np.maximum', 'np.meshgrid', 'np.inner', 'np.tensordot', 'np.einsum'}
+_KEEP_METHODS = {'copy', 'reshape', 'ravel', 'flatten', 'transpose', 'squeeze', 'max', 'min', 'cumsum', 'clip', 'repeat', 'take', 'diagonal'}
+_F, _B, _I, _U = 'float', 'bool', 'int', 'unknown'
+
+
+def _dt_join2(a, b):
+    if _F in (a, b):
+        return _F
+    if _U in (a, b):
+        return _U
+    pa, pb = isinstance(a, tuple), isinstance(b, tuple)
+    if pa and pb:
+        return ('arg', a[1] | b[1])
+    if pa or pb:
+        return a if pa else b
+    return _I if _I in (a, b) else _B
+
+
+def _dt_join(*sets):
+    out = sets[0]
+    for s in sets[1:]:
+        out = frozenset(_dt_join2(a, b) for a in out for b in s)
+    return out
+
+
+def _dt_literal(fi, d, at, seen):
+    t = u(d).strip('\'"')
+    t = t.split('.', 1)[1] if t.startswith(('np.', 'numpy.')) else t
+    if t in ('float', 'float64', 'float32', 'float16', 'double', 'float_', 'longdouble', 'f8', 'f4', 'd', 'single', 'half'):
+        return frozenset([_F])
+    if t in _INT_DT or t in ('int', 'uint', 'intp', 'uintp', 'int_', 'long', 'i1', 'i2', 'i4', 'i8', 'u1', 'u2', 'u4', 'u8'):
+        return frozenset([_I])
+    if t in ('bool', 'bool_'):
+        return frozenset([_B])
+    if isinstance(d, ast.Attribute) and d.attr == 'dtype':
+        return _dtype_of(fi, d.value, at, seen)
+    return frozenset([_U])
+
+
+def _dtype_of(fi, e, at, seen=frozenset()):
+    """Provenance of the ELEMENT TYPE of an array expression evaluated at
+    statement `at`: a set (one member per path / alternative) of 'float',
+    'bool', 'int', ('arg', {parameters whose element type it inherits}),
+    'unknown'.  Transfer functions are NumPy's documented result types."""
+    one = lambda x: frozenset([x])
+    F = fi.mod.qualname(fi.fn)
+    if isinstance(e, ast.Constant):
+        v = e.value
+        return one(_B if isinstance(v, bool) else _I if isinstance(v, int) else _F if isinstance(v, float) else _U)
+    if isinstance(e, ast.Name):
+        out = set()
+        for site in fi.rd.defs_at(at, e.id):
+            if site == 'UNBOUND':
+                continue
+            if site == 'PARAM':
+                ps = params(fi.fn)
+                kind = _PARAM_DTYPES.get(F, {}).get(ps.index(e.id)) if e.id in ps else None
+                out.add(_F if kind == 'float' else ('arg', frozenset([e.id])) if kind in ('real', 'int') else _U)
+                continue
+            key = (id(site), e.id)
+            if key in seen:
+                continue                  # loop-carried redefinition: contributes nothing new
+            if isinstance(site, ast.AugAssign) and isinstance(site.target, ast.Name):
+                prev = _dtype_of(fi, ast.Name(id=e.id, ctx=ast.Load()), site, seen | {key})
+                out |= one(_F) if isinstance(site.op, ast.Div) else _dt_join(prev or one(_U), _dtype_of(fi, site.value, site, seen | {key}))
+                continue
+            val = fi.def_value(site, e.id) if isinstance(site, (ast.Assign, ast.AnnAssign)) else None
+            out |= _dtype_of(fi, val, site, seen | {key}) if val is not None else one(_U)
+        return frozenset(out) if out else one(_U)
+    if isinstance(e, ast.Compare) or (isinstance(e, ast.UnaryOp) and isinstance(e.op, ast.Not)):
+        return one(_B)
+    if isinstance(e, ast.UnaryOp):
+        return _dtype_of(fi, e.operand, at, seen)
+    if isinstance(e, ast.BinOp):
+        if isinstance(e.op, ast.Div):
+            return one(_F)
+        return _dt_join(_dtype_of(fi, e.left, at, seen), _dtype_of(fi, e.right, at, seen))
+    if isinstance(e, ast.BoolOp):
+        return _dt_join(*[_dtype_of(fi, x, at, seen) for x in e.values])
+    if isinstance(e, ast.IfExp):
+        return _dtype_of(fi, e.body, at, seen) | _dtype_of(fi, e.orelse, at, seen)
+    if isinstance(e, (ast.List, ast.Tuple)):
+        return _dt_join(*[_dtype_of(fi, x, at, seen) for x in e.elts]) if e.elts else one(_F)
+    if isinstance(e, (ast.ListComp, ast.GeneratorExp)):
+        return _dtype_of(fi, e.elt, at, seen)
+    if isinstance(e, ast.Starred):
+        return _dtype_of(fi, e.value, at, seen)
+    if isinstance(e, ast.Subscript):
+        return _dtype_of(fi, e.value, at, seen)
+    if isinstance(e, ast.Attribute):
+        if e.attr in ('T', 'real', 'flat'):
+            return _dtype_of(fi, e.value, at, seen)
+        if e.attr in ('shape', 'size', 'ndim', 'itemsize', 'nbytes'):
+            return one(_I)
+        return one(_U)
+    if isinstance(e, ast.Call):
+        cn = call_name(e) or ''
+        cn = 'np.' + cn[len('numpy.'):] if cn.startswith('numpy.') else cn
+        dkw = kwarg(e, 'dtype')
+        out = kwarg(e, 'out')
+        if out is not None and cn.startswith('np.'):
+            return _dtype_of(fi, out, at, seen)          # the value of a ufunc call with out= IS the buffer
+        if cn in _LIKE:
+            return _dt_literal(fi, dkw, at, seen) if dkw is not None else (_dtype_of(fi, e.args[0], at, seen) if e.args else one(_U))
+        if cn in _FRESH:
+            d = dkw if dkw is not None else (e.args[1] if len(e.args) > 1 else None)
+            return _dt_literal(fi, d, at, seen) if d is not None else one(_F)
+        if cn == 'np.full':
+            d = dkw if dkw is not None else (e.args[2] if len(e.args) > 2 else None)
+            return _dt_literal(fi, d, at, seen) if d is not None else (_dtype_of(fi, e.args[1], at, seen) if len(e.args) > 1 else one(_U))
+        if cn in _KEEP_FUNCS and e.args:
+            return _dt_literal(fi, dkw, at, seen) if dkw is not None else _dtype_of(fi, e.args[0], at, seen)
+        if cn in _PROMOTE_FUNCS and e.args:
+            return _dt_join(*[_dtype_of(fi, a, at, seen) for a in e.args if not (isinstance(a, ast.Constant) and isinstance(a.value, str))])
+        if cn in _FLOAT_UFUNCS or cn in ('np.linalg.norm', 'np.mean', 'np.std', 'np.var', 'float', 'np.float64', 'np.rad2deg', 'np.deg2rad'):
+            return one(_F)
+        if cn == 'np.bincount':
+            return one(_F) if (kwarg(e, 'weights') is not None or len(e.args) > 1) else one(_I)
+        if cn == 'np.where' and len(e.args) == 3:
+            return _dt_join(_dtype_of(fi, e.args[1], at, seen), _dtype_of(fi, e.args[2], at, seen))
+        if cn in ('int', 'len', 'np.count_nonzero', 'np.argmax', 'np.argmin', 'np.arange', 'range', 'np.argsort', 'np.flatnonzero'):
+            return one(_I)
+        if cn in ('bool', 'np.isnan', 'np.isinf', 'np.isfinite', 'np.logical_and', 'np.logical_or', 'np.logical_not', 'np.any', 'np.all'):
+            return one(_B)
+        if isinstance(e.func, ast.Attribute) and not (isinstance(e.func.value, ast.Name) and e.func.value.id in _MODULE_ALIASES):
+            m = e.func.attr
+            if m == 'astype' and (e.args or dkw is not None):
+                return _dt_literal(fi, e.args[0] if e.args else dkw, at, seen)
+            if m in _KEEP_METHODS:
+                return _dtype_of(fi, e.func.value, at, seen)
+            if m in ('sum', 'prod', 'dot'):
+                base = _dtype_of(fi, e.func.value, at, seen)
+                if m == 'dot' and e.args:
+                    return _dt_join(base, _dtype_of(fi, e.args[0], at, seen))
+                return _dt_literal(fi, dkw, at, seen) if dkw is not None else frozenset(_I if x == _B else x for x in base)
+            if m in ('mean', 'std', 'var'):
+                return one(_F)
+            if m in ('any', 'all'):
+                return one(_B)
+        return one(_U)
+    return one(_U)
+
+
+def d5_out_dtype(ck):
+    """A ufunc whose result is floating (true division, log, exp, sqrt)
+    cannot write into an integer or boolean out= buffer (casting rule
+    'same_kind': UFuncTypeError).  The element type of every such buffer is
+    traced back through its allocation: it must be floating on every path -
+    not the element type of an argument whose dtype the contract leaves open
+    (weights may be integers or booleans: a one-hot distribution)."""
+    rule = 'C18.D5.out-dtype'
+    n = 0
+    for rel in (MI, EN):
+        mod = ck.repo.mod(rel)
+        for q, fn in list(mod.functions.items()):
+            calls = [c for c in calls_in(fn) if (call_name(c) or '').replace('numpy.', 'np.') in _FLOAT_UFUNCS and kwarg(c, 'out') is not None]
+            if not calls:
+                continue
+            fi = _fi(mod, fn)
+            ck.analysed(mod, fn)
+            reported = set()
+            for c in sorted(calls, key=lambda c: (getattr(c, 'lineno', 0), getattr(c, 'col_offset', 0))):
+                n += 1
+                st = fi.stmt(c)
+                prov = _dtype_of(fi, kwarg(c, 'out'), st)
+                wrong = sorted((x for x in prov if x not in (_F, _U)), key=str)
+                cn = call_name(c)
+                if not wrong and _U not in prov:
+                    ck.ok(rule, mod, c, '%s(..., out=%s)' % (cn, u(kwarg(c, 'out'))[:60]), 'the out= buffer is floating on every path')
+                    continue
+                if not wrong:
+                    ck.missing(rule, 'element type of the out= buffer of `%s` in %s' % (u(c)[:100], q))
+                    continue
+                w = wrong[0]
+                if isinstance(w, tuple):
+                    what = 'argument %s' % ', '.join('`%s`' % p for p in sorted(w[1]))
+                    key = (q, w[1])
+                    con = 'out= buffer of a float-valued ufunc inherits the element type of %s' % what
+                    why = ('the buffer passed as out= to %s gets its element type from %s (allocated with the dtype of an array '
+                           'computed from it, no float conversion on some path): for integer or boolean %s - admissible, e.g. a one-hot '
+                           'weight vector - NumPy refuses to write the floating result (UFuncTypeError, casting rule same_kind). '
+                           'Allocate the buffer with dtype=float' % (cn, what, what))
+                else:
+                    key = (q, w)
+                    con = 'out= buffer of a float-valued ufunc has a %s element type' % w
+                    why = 'the buffer passed as out= to %s is %s: the floating result cannot be written into it (UFuncTypeError)' % (cn, w)
+                if key in reported:
+                    continue
+                reported.add(key)
+                ck.bad(rule, mod, c, q, con, why)
+    ck.floor(rule, n, 6, 'float-valued ufunc calls with out= in info_theory')
+
+
 def check(ck):
     d1_kernel(ck)
     d3_axes(ck)
@@ -1337,7 +2207,9 @@ def check(ck):
     for rel in (MI, EN):
         n += check_masked_ufuncs(ck, 'C18.D5.masked-ufunc', ck.repo.mod(rel))
     ck.floor('C18.D5.masked-ufunc', n, 6, 'masked ufunc calls in info_theory')
-    d6_joint_counts(ck)
+    d6_joint_counts(ck, d6_ids_preserved(ck))
+    d6_default_width(ck)
+    d5_out_dtype(ck)
     d7_entropy(ck)
     check_no_arg_mutation(ck, 'C18.D8.inputs-unmodified', [
         (MI, 'joint_counts'), (MI, 'mutual_information'), (MI, 'mi_matrix'),
